@@ -93,6 +93,17 @@ int main(int argc, char **argv){
   misuse("read(binary stream with future version)", [&]{ std::string h("TSG9"); h += std::string(32, '\x07'); std::stringstream ss(h); grid.read(ss, mode_binary); }, true, true);
   misuse("read(ascii stream that is not a grid)", [&]{ std::stringstream ss("HELLO WORLD\n1 2 3\n"); grid.read(ss, mode_ascii); }, true, true);
   misuse("read(ascii stream with wrong version line)", [&]{ std::stringstream ss("TASMANIAN SG 99.9\nWITH\n"); grid.read(ss, mode_ascii); }, true, true);
+  // future file formats, ordered lexicographically as (major, minor): a later major with any minor, the same major with a later minor; the body is a complete valid image where one exists
+  { std::string body = "WITHCONFORMAL\nempty\nTASMANIAN SG end\n";
+    if (!grid.empty() && !model.symbolic){ std::stringstream img; grid.write(img, false); std::string b = img.str(); size_t nl = b.find('\n'); if (nl != std::string::npos) body = b.substr(nl + 1); }
+    int M = TasmanianSparseGrid::getVersionMajor(), m = TasmanianSparseGrid::getVersionMinor();
+    const int fut[7][2] = {{M + 1, 0}, {M + 1, m}, {M + 1, m + 1}, {M + 2, m > 0 ? m - 1 : 0}, {M, m + 1}, {M, m + 10}, {M + 10, m}};
+    for (auto &v : fut){ std::string nm = "read(ascii image with future version major" + std::string(v[0] > M ? "+" : "=") + " minor" + (v[1] > m ? "+" : v[1] == m ? "=" : "-") + ")";
+      std::string text = "TASMANIAN SG " + std::to_string(v[0]) + "." + std::to_string(v[1]) + "\n" + body;
+      misuse(nm.c_str(), [&]{ std::stringstream ss(text); grid.read(ss, mode_ascii); }, true, true); }
+    misuse("read(ascii image of a version before 3.0)", [&]{ std::stringstream ss("TASMANIAN SG 2.9\n" + body); grid.read(ss, mode_ascii); }, true, true);
+    misuse("read(binary stream with the next format version)", [&]{ std::string h("TSG6"); h += std::string(32, '\x01'); std::stringstream ss(h); grid.read(ss, mode_binary); }, true, true);
+  }
   misuse("read(ascii stream with unknown grid type)", [&]{ std::stringstream ss("TASMANIAN SG 8.0\nWITHCONFORMAL\nsuperlocal\n"); grid.read(ss, mode_ascii); }, true, true);
   misuse("read(missing file)", [&]{ grid.read("/nonexistent/verif_grid_file"); }, true, true);
   // damaged images of THIS grid (its current state, including pending refinement / construction data): truncated at several places, end marker changed
